@@ -58,18 +58,19 @@ Definition framing_code (f : framing) : N * N :=
 Inductive case :=
 | CHandler (cfg : config) (orc : list bytes * orc_outcome) (ocd : list (list bytes * ocd_outcome))
            (evs : list event) (expected : list obs)
-| CBuild (a : bargs) (expected : bytes)
+  (* build_http_response on the arguments, h11's verdict on the bytes the implementation built,
+     and the recogniser on the same bytes *)
+| CBuild (connect : bool) (a : bargs) (expected : bytes) (h11 : N) (status : N) (nheaders : N)
+         (blen : N) (body : option bytes)
 | COk (gz_out : bytes) (content : option bytes) (headers : option hdrs) (compress : bool)
       (min_len : Z) (conn_close no_cl : bool) (expected : bytes)
 | CCanned (agent : bytes) (which : N) (expected : bytes)
 | CRedirect (permanent : bool) (location : bytes) (expected : bytes)
 | CExnResponse (agent : bytes) (e : proto_exn) (expected : option bytes)
   (* h11: 0 = rejects; 1 = accepts exactly one response + EOF; 2 = accepts, but the input
-     contains something h11 is knowingly more lenient about than RFC 7230 *)
-| CRecognise (connect : bool) (raw : bytes) (h11 : N) (status : N) (nheaders : N) (body : bytes)
-  (* the model's wf_args / wf_response on builder arguments, against h11's verdict on the bytes
-     the implementation built: wf_args -> both accept *)
-| CWfArgs (connect : bool) (a : bargs) (h11_ok : bool).
+     contains something h11 is knowingly more lenient about than RFC 7230;
+     the body h11 decoded is given as [Some body], or as None when it is the last blen bytes of raw *)
+| CRecognise (connect : bool) (raw : bytes) (h11 : N) (status : N) (nheaders : N) (blen : N) (body : option bytes).
 
 Definition canned (agent : bytes) (which : N) : bytes :=
   if which =? 0 then PROXY_TUNNEL_ESTABLISHED_RESPONSE_PKT
@@ -80,32 +81,40 @@ Definition canned (agent : bytes) (which : N) : bytes :=
   else if which =? 5 then NOT_IMPLEMENTED_RESPONSE_PKT agent
   else BAD_GATEWAY_RESPONSE_PKT agent.
 
+Definition suffix (n : N) (l : bytes) : bytes := drop (len l - n) l.
+
+Definition check_recognise (connect : bool) (raw : bytes) (h11 status nheaders blen : N) (body : option bytes) : bool :=
+  let body := match body with Some b => b | None => suffix blen raw end in
+  match recognise false connect raw with
+  | Some v =>
+      if framing_ok v then
+        negb (h11 =? 0) && (rv_status v =? status) && (N.of_nat (length (rv_headers v)) =? nheaders) &&
+        bytes_eqb (rv_body v) body
+      else match rv_framing v with
+           | UntilClose => true   (* close-delimited without announcing the close: accepted by
+                                     h11, deliberately not by framing_ok *)
+           | _ => negb (h11 =? 1)
+           end
+  | None => negb (h11 =? 1)
+  end.
+
 Definition check_case (c : case) : bool :=
   match c with
   | CHandler cfg orc ocd evs expected =>
       run_obs cfg (orc_const orc) (ocd_script ocd) new_handler evs expected
-  | CBuild a e => bytes_eqb (build_http_response a) e
+  | CBuild connect a e h11 status nheaders blen body =>
+      bytes_eqb (build_http_response a) e &&
+      (* wf_args -> the model's recogniser and h11 both accept *)
+      (if wf_args connect a then wf_response connect (build_http_response a) && negb (h11 =? 0) else true) &&
+      check_recognise connect e h11 status nheaders blen body
   | COk gz_out content headers compress min_len cc ncl e =>
       bytes_eqb (okResponse (fun _ => gz_out) content headers compress min_len cc ncl) e
   | CCanned agent which e => bytes_eqb (canned agent which) e
   | CRedirect perm loc e =>
       bytes_eqb (if perm then permanentRedirectResponse loc else seeOthersResponse loc) e
   | CExnResponse agent e exp => option_eqb bytes_eqb (exn_response agent e) exp
-  | CRecognise connect raw h11 status nheaders body =>
-      match recognise false connect raw with
-      | Some v =>
-          if framing_ok v then
-            negb (h11 =? 0) && (rv_status v =? status) && (N.of_nat (length (rv_headers v)) =? nheaders) &&
-            bytes_eqb (rv_body v) body
-          else match rv_framing v with
-               | UntilClose => true   (* close-delimited without announcing the close: accepted by
-                                         h11, deliberately not by framing_ok *)
-               | _ => negb (h11 =? 1)
-               end
-      | None => negb (h11 =? 1)
-      end
-  | CWfArgs connect a h11_ok =>
-      if wf_args connect a then wf_response connect (build_http_response a) && h11_ok else true
+  | CRecognise connect raw h11 status nheaders blen body =>
+      check_recognise connect raw h11 status nheaders blen body
   end.
 
 (* model outputs for replay files *)
